@@ -25,7 +25,7 @@ Lemma mapM_nth {A B} (f : A -> Result B) d : forall (xs : list A) (g : nat -> B)
   (forall k, k < length xs -> f (nth k xs d) = Ok (g k)) -> mapM f xs = Ok (map g (seq 0 (length xs))).
 Proof.
   induction xs as [|h t IH]; intros g H. reflexivity.
-  cbn [mapM length seq map]. rewrite (H 0) by (simpl; lia). cbn [bind].
+  cbn [mapM length seq map]. pose proof (H 0 ltac:(simpl; lia)) as H0. simpl in H0. rewrite H0. cbn [bind].
   rewrite (IH (fun k => g (S k))). 2: { intros k Hk. apply (H (S k)). simpl; lia. }
   cbn [bind]. rewrite <- seq_shift, map_map. reflexivity.
 Qed.
@@ -160,7 +160,7 @@ Proof.
     simpl in G. rewrite G by (rewrite Ng_length; lia).
     eexists. split; [reflexivity|]. split.
     + rewrite zip_acc_length; auto. rewrite Ng_length; lia.
-    + rewrite zip_acc_peval by (rewrite Ng_length; lia). rewrite Hl. fold n. rewrite (Ng_firstn xs k x) by lia.
+    + rewrite zip_acc_peval by (rewrite Ng_length; lia). rewrite Hl. unfold n. rewrite (Ng_firstn xs k x) by (unfold n in *; lia).
       rewrite Hp. cbn [gsum]. unfold term. ring.
 Qed.
 End Fixed.
@@ -171,7 +171,8 @@ Definition dens (xs : list F) : list F :=
 
 Lemma dens_length xs : length (dens xs) = length xs.
 Proof.
-  unfold dens. rewrite (batch_inversion_length O L). apply zip_with_length. now rewrite map_length, seq_length.
+  unfold dens. rewrite (batch_inversion_length O L).
+  rewrite zip_with_length; now rewrite map_length, seq_length.
 Qed.
 
 Lemma dens_nth xs k : k < length xs ->
